@@ -68,6 +68,12 @@ pub axiom fn ax_obeys()
         forall|a: f64, b: f64| (#[trigger] fcmp(a, b) == Some(core::cmp::Ordering::Equal)) == (fcmp(b, a) == Some(core::cmp::Ordering::Equal)),
         forall|a: f64, b: f64| (#[trigger] fcmp(a, b) is None) == (fcmp(b, a) is None),
         forall|a: f64, b: f64| #[trigger] feq(a, b) == (fcmp(a, b) == Some(core::cmp::Ordering::Equal)),
+        // max / min are commutative as far as comparisons can tell (the two results are identical, or +0 / -0,
+        // or both NaN): discharged for ALL triples by the loop-free Kani harness `ieee_max_min_commute`
+        forall|a: f64, b: f64, c: f64| #[trigger] fcmp(fmaxf(a, b), c) == fcmp(fmaxf(b, a), c),
+        forall|a: f64, b: f64, c: f64| #[trigger] fcmp(c, fmaxf(a, b)) == fcmp(c, fmaxf(b, a)),
+        forall|a: f64, b: f64, c: f64| #[trigger] fcmp(fminf(a, b), c) == fcmp(fminf(b, a), c),
+        forall|a: f64, b: f64, c: f64| #[trigger] fcmp(c, fminf(a, b)) == fcmp(c, fminf(b, a)),
         <f64 as AddSpec<f64>>::obeys_add_spec(),
         <f64 as AddSpec<&f64>>::obeys_add_spec(),
         <&f64 as AddSpec<f64>>::obeys_add_spec(),
@@ -322,7 +328,11 @@ pub fn gen_discount(it: u64, discount: f64) -> (res: f64)
     requires
         it >= 1,
     ensures
-        res == gd_spec(it, discount),
+        // (the value as a real number: operand order inside the formula is immaterial; the three special
+        // exponents give the exact constants)
+        rv(res) == rv(gd_spec(it, discount)),
+        feq(discount, fneginf()) ==> res == 0.0f64, !feq(discount, fneginf()) && feq(discount, 0.0f64) ==> res == 0.5f64,
+        !feq(discount, fneginf()) && !feq(discount, 0.0f64) && feq(discount, finf()) ==> res == 1.0f64,
         // general branch: t^a / (t^a + 1) with t^a := exp(a ln t)
         !feq(discount, fneginf()) && !feq(discount, 0.0f64) && !feq(discount, finf()) ==> is_discount(res, it, discount), // @ob C08.V.gen_discount.value
 {
@@ -414,7 +424,7 @@ let ghost n = cum_reg@.len();
         for reg in it0: cum_reg.iter_mut() 
 invariant
     it0.snapshot@.remaining().len() == n, 0 <= it0.index@ <= n,
-    pos == gd_spec(it, self.pos_regret), neg == gd_spec(it, self.neg_regret),
+    rv(pos) == rv(gd_spec(it, self.pos_regret)), rv(neg) == rv(gd_spec(it, self.neg_regret)),
     forall|i: int| 0 <= i < n ==> *(#[trigger] it0.snapshot@.remaining()[i]) == s0[i],
     forall|i: int| 0 <= i < it0.index@ ==> rv(*final(#[trigger] it0.snapshot@.remaining()[i])) ==
         (if rv(s0[i]) > 0real { rv(s0[i]) * rv(pos) } else if rv(s0[i]) < 0real { rv(s0[i]) * rv(neg) } else { rv(s0[i]) }),
